@@ -144,6 +144,7 @@ def default_knobs(rng: Rng, profile: str) -> Dict[str, Any]:
     # only where no call stack is built from them
     k["tiny_events"] = bool(k["fractional"]) and profile in ("loader", "symtab") and rng.chance(0.5)
     k["flow_p"] = rng.choice([0.0, 0.5, 0.5])
+    k["zero_dur_kernels"] = (not k["fractional"]) and profile in ("callgraph", "loader", "symtab", "env") and rng.chance(0.3)
     k["corr_overlap"] = rng.chance(0.5)
     k["boundary"] = (not k["fractional"]) and profile in ("loader", "symtab") and rng.chance(0.25)
     k["first_in_step"] = k["steps"] > 0 and (not k["pre_step_events"]) and rng.chance(0.5)
@@ -273,6 +274,8 @@ class _RankGen:
                 name = r.choice(self.vocab["kernels"])
             cat = "kernel"
             dur = self.dur_ticks(1, 40)
+            if self.k.get("zero_dur_kernels") and r.chance(0.15):
+                dur = 0  # Kineto reports very short kernels with a duration of 0 us
             args = {"External id": self.ext_id, "queued": 0, "device": self.dev, "context": 1,
                     "stream": stream, "correlation": corr, "registers per thread": 32,
                     "shared memory": 0, "grid": [r.randint(1, 64), 1, 1], "block": [128, 1, 1]}
